@@ -9,12 +9,12 @@ BASE = dict(
     BadEvents="FALSE", FoUuid="<- Fo10", Savers='{"p"}', MaxSaves="2", MaxCrash="1", MaxAcks="2", MaxGen="2",
     MaxNotify="0", MaxEnds="0", MaxFail="0", AutoReset='"earliest"', Finite="FALSE", AutoCkpt="FALSE",
     Infos="<- NoInfos", Info0="<- Info11", EndCauses="{}", Hold="FALSE", AllowClose="FALSE", Rollbacks="FALSE",
-    FailSaves="TRUE", Focus="TRUE", Record="FALSE", Gaps="{}", Bugs="{}")
+    FailSaves="TRUE", Focus="TRUE", Record="FALSE", Marking="FALSE", WindAt="0", Gaps="{}", Bugs="{}")
 DATA = dict(BASE)
 GEN = dict(BASE, NVB="1", InitLog="<- EmptyLog", Kinds='{"mut", "del", "exp", "sys", "adv"}', Keys='{"user", "conn", "txn"}',
            OldEvents="TRUE", BadEvents="TRUE", MaxSaves="1", Rollbacks="TRUE", FailSaves="FALSE")
 LIFE = dict(BASE, InitLog="<- EmptyLog", MaxSeq="1", Kinds='{"mut"}', MaxSaves="1", MaxAcks="1", MaxCrash="0", MaxNotify="2",
-            MaxEnds="2", Infos="<- Infos2", EndCauses='{"socket", "ok"}', AllowClose="TRUE", AutoCkpt="TRUE", Focus="FALSE",
+            MaxEnds="2", Infos="<- Infos2", EndCauses='{"socket", "statechanged", "ok"}', AllowClose="TRUE", AutoCkpt="TRUE", Focus="FALSE",
             MaxGen="4", FailSaves="FALSE")
 FAULT = dict(BASE, InitLog="<- OldLog", MaxSeq="2", Kinds='{"mut"}', MaxSaves="1", MaxFail="2", MaxGen="3", FailSaves="FALSE")
 GAPS = '{"CloseDuringReopen", "LateWait"}'
@@ -22,7 +22,9 @@ GAPS = '{"CloseDuringReopen", "LateWait"}'
 def mc(d, **kw):
     return ("Spec", dict(d, **kw), "VIEW view\nINVARIANTS " + ALL, "MCBase")
 def simc(d, depth, **kw):
-    return ("SimSpec", dict(d, Record="TRUE", D=str(depth), **kw), "INVARIANTS DumpSched", "SimCore")
+    return ("SimSpec", dict(d, Record="TRUE", D=str(depth), WindAt=str(depth - 14), **kw), "INVARIANTS DumpSched", "SimCore")
+def wit(d, **kw):
+    return ("Spec", dict(d, Marking="TRUE", Target='"@TARGET@"', **kw), "VIEW view\nINVARIANTS WitnessInv", "WitCore")
 def rep(d, **kw):
     return ("RSpec", dict(d, Record="TRUE", **kw), "INVARIANTS DumpSched", "ReplayCore")
 
@@ -50,11 +52,24 @@ CFGS = {
     "SimLife": simc(LIFE, 55, MaxSeq="2", MaxSaves="2", MaxAcks="2", MaxNotify="3", MaxEnds="3"),
     "ReplayLife": rep(LIFE, MaxSeq="3", MaxSaves="5", MaxAcks="5", MaxNotify="5", MaxEnds="6"),
     "ReplayLifeGaps": rep(LIFE, MaxSeq="3", MaxSaves="5", MaxAcks="5", MaxNotify="5", MaxEnds="6", Gaps=GAPS),
+    # ---- witness generation (bin/mkwitness substitutes @TARGET@)
+    "WitData": wit(DATA, Savers='{"p", "c"}', MaxSaves="3", MaxAcks="3"),
+    "WitGen": wit(GEN, MaxAcks="2", MaxSaves="1"),
+    "WitLife": wit(LIFE, MaxSeq="2", MaxAcks="2", MaxSaves="1", Hold="TRUE"),
+    "WitFault": wit(FAULT),
+    "WitFaultLatest": wit(FAULT, AutoReset='"latest"'),
+    "WitReplayFault": rep(FAULT, MaxFail="5", MaxSaves="5", MaxAcks="5", MaxCrash="3", MaxGen="5"),
+    "WitReplayFaultLatest": rep(FAULT, MaxFail="5", MaxSaves="5", MaxAcks="5", MaxCrash="3", MaxGen="5", AutoReset='"latest"'),
+    "WitReplayData": rep(DATA, Savers='{"p", "c"}', MaxSaves="10", MaxAcks="10", MaxCrash="3", MaxGen="4"),
+    "WitReplayGen": rep(GEN, MaxSeq="4", MaxSaves="10", MaxAcks="10", MaxCrash="3", MaxGen="4"),
+    "WitReplayLife": rep(LIFE, MaxSeq="3", MaxSaves="5", MaxAcks="5", MaxNotify="5", MaxEnds="6", Hold="TRUE"),
     # ---- start-up faults ------------------------------------------------------------------------------------
-    "MCFaultQ": mc(FAULT),
+    "MCFaultQ": mc(FAULT, MaxFail="1"),
+    "MCFault": mc(FAULT),
     "MCModeQ": mc(FAULT, MaxFail="0", Finite="TRUE", AutoReset='"latest"', MaxEnds="2", EndCauses='{"ok"}', AllowClose="TRUE"),
     "SimMode": simc(FAULT, 44, MaxFail="0", Finite="TRUE", AutoReset='"latest"', MaxEnds="2", EndCauses='{"ok"}', AllowClose="TRUE", MaxSaves="2"),
-    "MCFaultLatestQ": mc(FAULT, AutoReset='"latest"'),
+    "MCFaultLatestQ": mc(FAULT, AutoReset='"latest"', MaxFail="1"),
+    "MCFaultLatest": mc(FAULT, AutoReset='"latest"'),
     "SimFault": simc(FAULT, 48, MaxFail="3"),
     "SimFaultLatest": simc(FAULT, 48, MaxFail="3", AutoReset='"latest"'),
 }
